@@ -17,7 +17,8 @@ def commit_history(rng, n, heavy_delete=False, lazy=True):
             g.op_delete(rng.choice(g.buckets))
         elif r < 0.03:
             b = rng.choice(g.buckets)
-            g.ops.append(["update", b, {"name": "n" + str(rng.randint(0, 9))}])
+            g.ops.append(["update", b, rng.choice([{"name": "n" + str(rng.randint(0, 9))}, {"data": json.dumps({"v": rng.randint(0, 9)})},
+                                                    {"hostname": "h" + str(rng.randint(0, 9)), "data": "{}"}])])
         elif r < 0.05:
             g.ops.append(["read", rng.choice(g.buckets)])
         elif r < 0.06:
